@@ -25,11 +25,14 @@ type Recipe struct {
 	K   []Recipe `json:"k,omitempty"`
 }
 
-var zeroRecipe Recipe
+// missingRecipe stands for a recipe element that is absent (hand-written or
+// truncated recipes): the zero value with nil pointers/slices/maps, so that
+// building a recursive corpus type terminates.
+var missingRecipe = Recipe{Nil: true}
 
 func (r *Recipe) elem(i int) *Recipe {
 	if r == nil || i >= len(r.E) {
-		return &zeroRecipe
+		return &missingRecipe
 	}
 	return &r.E[i]
 }
